@@ -6,7 +6,7 @@ current list order (resolved identically by both drivers from their own state), 
 replies actually hit in-flight requests.
 
 Streams:
-  hand        hand-written timelines (incl. witnesses of the *_refuted theorems)
+  hand        hand-written timelines (incl. regression witnesses of repaired defects and of the listed findings)
   client      mostly-valid client behaviour: start ... (timers, replies) ... completed/stop, restarts
   primitive   arbitrary interleavings of controller primitives (enable/disable/close/send_*),
               `sp` always followed by `di` (the only way the client API issues it)
@@ -28,14 +28,16 @@ HAND = [
     "T 0 G 1 0 ; en ss ad:0 ok:0:1800:600:3 nx fl:0 nx fl:0 nx fl:0 nx fl:0 nx fl:0 nx fl:0 nx fl:0 nx fl:0 nx fl:0 nx ok:0:1800:600:1 nx",
     # three trackers in two tiers: promiscuous mode 3 s after start
     "T 500000 G 3 0 0 1 ; en ss ad:0 fl:0 ad:3000000 fl:1 nx ok:2:100:100:0 sp di",
-    # WITNESS started_carried_refuted: manual request while 'started' is pending after a failure
+    # regression (fixed d5b8825): manual request while 'started' is pending after a failure
     "T 0 G 1 0 ; en ss fl:0 mr ok:0:1800:600:0 nx",
-    # WITNESS completed_carried_refuted
+    # regression (fixed d5b8825, eed7d46): completed pending + manual request
     "T 0 G 1 0 ; en ss ok:0:1800:600:0 sc fl:0 mr ok:0:1800:600:0 nx",
-    # WITNESS min_interval_respected_refuted: min interval above interval
+    # regression (fixed b6c5394, fabe449): min interval above interval
     "T 0 G 1 0 ; en ss ok:0:600:3000:0 nx",
-    # WITNESS tier_order_refuted: tier 2 contacted although tier 1 has a working tracker (not yet due)
+    # listed finding tier-skipped-not-due (tier_order_strict_refuted): tier 2 contacted although tier 1 has a working tracker (not yet due)
     "T 0 G 3 0 1 2 ; en ss fl:0 ok:1:1800:600:0 nx nx ok:b:1800:600:0 nx",
+    "T 0 G 1 0 ; en ss ok:0:600:3000:0 rq ad:0 nx",
+    "T 0 G 2 0 1 ; en rq ad:0 ss ok:1:1800:600:0 fl:0 nx nx",
     # tier skipped because the earlier tracker is still in flight (tracker disable re-arms the timer)
     "T 0 G 3 0 1 1 ; en ss td:2 ad:0",
     # stop reaches only used trackers; restart keeps stats or not
